@@ -134,9 +134,25 @@ func c10AbstractArg(x *xExec, a ssa.Value, t types.Type, depth int) xVal {
 			// the caller's own parameters with some fields written: the written fields, if constant
 			// on every path, else unknown
 			base := unknown()
-			return c10ApplyFieldStores(x, al, v, base, t)
+			return c10ApplyFieldStores(x, al, v, base, t, nil)
 		}
-		return c10ApplyFieldStores(x, al, v, xZero(t, 0), t)
+		// a local: zero, or a copy of another structure (one whole-value store, before the load),
+		// then the fields written after that
+		var whole []*ssa.Store
+		for _, ref := range *al.Referrers() {
+			if st, ok := ref.(*ssa.Store); ok && st.Addr == ssa.Value(al) {
+				whole = append(whole, st)
+			}
+		}
+		switch len(whole) {
+		case 0:
+			return c10ApplyFieldStores(x, al, v, xZero(t, 0), t, nil)
+		case 1:
+			if c10InstrDominates(whole[0], v) {
+				return c10ApplyFieldStores(x, al, v, c10AbstractArg(x, whole[0].Val, t, depth+1), t, whole[0])
+			}
+		}
+		return unknown()
 	}
 	return unknown()
 }
@@ -145,7 +161,7 @@ func c10AbstractArg(x *xExec, a ssa.Value, t types.Type, depth int) xVal {
 // that is stored to holds the stored constant when exactly one store to it exists, it dominates the
 // load and is a constant or a scalar the executor cannot know (then unknown); whole-value stores
 // other than the spill of a parameter make everything unknown.
-func c10ApplyFieldStores(x *xExec, al *ssa.Alloc, ld *ssa.UnOp, base xVal, t types.Type) xVal {
+func c10ApplyFieldStores(x *xExec, al *ssa.Alloc, ld *ssa.UnOp, base xVal, t types.Type, after *ssa.Store) xVal {
 	st, ok := t.Underlying().(*types.Struct)
 	if !ok || base.k != 's' {
 		return x.unknown(t, "P", 0)
@@ -154,7 +170,7 @@ func c10ApplyFieldStores(x *xExec, al *ssa.Alloc, ld *ssa.UnOp, base xVal, t typ
 	for _, ref := range *al.Referrers() {
 		switch r := ref.(type) {
 		case *ssa.Store:
-			if r.Addr == ssa.Value(al) {
+			if r.Addr == ssa.Value(al) && r != after {
 				if _, isParam := r.Val.(*ssa.Parameter); !isParam {
 					return x.unknown(t, "P", 0)
 				}
@@ -170,7 +186,7 @@ func c10ApplyFieldStores(x *xExec, al *ssa.Alloc, ld *ssa.UnOp, base xVal, t typ
 				continue
 			}
 			name := st.Field(r.Field).Name()
-			if len(stores) == 1 && c10InstrDominates(stores[0], ld) {
+			if len(stores) == 1 && c10InstrDominates(stores[0], ld) && (after == nil || c10InstrDominates(after, stores[0])) {
 				if c, isConst := stores[0].Val.(*ssa.Const); isConst {
 					out.agg[r.Field] = x.val(c, nil, nil)
 					continue
@@ -346,6 +362,7 @@ func c10ElementTyping0(r *Run, li *c10LaxInfo) *c10Elem {
 		r.Fail("element:anchor", r.Where(s.call), "undecided: encoding/asn1 has no "+s.holder.Name()+" / "+s.dec.Name()+" to compare the element decoding with")
 		return res
 	}
+	r.Assume("element typing: one element stands for every element of a SEQUENCE OF (the paths are explored with one abstract header); the header the counting pass reads and the first header the element decoder reads at its own offset are the same header (the header function is a function of the bytes and the offset, and the decoding loop visits the offsets the counting loop visited); the type classification is consulted for the element type on both occasions; reflect.MakeSlice(t, n, n).Index(i) has the element type of t")
 	var tuples []string
 	memo := &c10Memo{r: r, fns: li.fns, pure: map[*ssa.Function]int{}, why: map[*ssa.Function]string{}, consts: map[*ssa.Global]bool{}}
 
